@@ -821,12 +821,19 @@ class Live:
                 self.guard(lambda: self.cli(f".clic({f})"), "close replaced connection", timeout=8, soft=True)
             except (RemoteRaised, NoAnswer):
                 pass
-        self.guard(lambda: self.cli(f'{f}::.cli("127.0.0.1:{self.port}")'), "connect")
-        self.guard(lambda: self.cli(f"{d}::.clid({f})"), "dict handle")
+        addr = f'"127.0.0.1:{self.port}"'
+        # all six derivations of a handle, three per connection:
+        #   connection 0:  f::.cli(addr)   d::.clid(f)    f3::.cli(d)    d3::.clid(d)
+        #   connection 1:  dd::.clid(addr) ff::.cli(dd)   ff3::.cli(ff)  dd3::.clid(ff)
+        steps = [f"f::.cli({addr})", "d::.clid(f)", "f3::.cli(d)", "d3::.clid(d)"] if conn == 0 else \
+                [f"dd::.clid({addr})", "ff::.cli(dd)", "ff3::.cli(ff)", "dd3::.clid(ff)"]
+        for t in steps:
+            self.guard(lambda t=t: self.cli(t), "connect: " + t.split("::")[0])
 
     @staticmethod
-    def handles(conn):
-        return ("f", "d") if conn == 0 else ("ff", "dd")
+    def handles(conn, alias=0):
+        """(function handle, dictionary handle) the operation runs through"""
+        return {(0, 0): ("f", "d"), (0, 1): ("f3", "d3"), (1, 0): ("ff", "dd"), (1, 1): ("ff3", "dd3")}[(conn, alias)]
 
     def guard(self, fn, what, timeout=None, soft=False):
         """run a client-side call with a deadline (a hung connection is an infrastructure failure;
@@ -932,7 +939,7 @@ def run_op(ctx, live, drv, op, history):
     from klongpy.core import KGSym
     cli, twin, srv = live.cli, live.twin, live.srv
     form = op["form"]
-    f, d = live.handles(op.get("conn", 0))
+    f, d = live.handles(op.get("conn", 0), op.get("alias", 0))
     case = dict(kind="live", ops=history + [op])
     asked = None
     model_line = None
@@ -1442,6 +1449,10 @@ def run_sequence(ctx, live, drv, ops, singleton):
         drv.ask(f"new singleton={singleton}")
     hist = []
     for op in ops:
+        if "alias" not in op:
+            # which derivation of the handle: the one the connection was opened with, or one derived from
+            # the other kind of handle over the same connection
+            op["alias"] = ctx.rng.randrange(2)
         for conn in (0, 1):
             if conn in live.dirty or not live.is_open(conn):
                 live.connect(conn)
